@@ -70,9 +70,11 @@ type Server struct {
 }
 
 var (
-	allMu   sync.Mutex
-	allSrv  []*Server
-	baseDir string
+	allMu       sync.Mutex
+	allSrv      []*Server
+	baseDir     string
+	clusterMu   sync.Mutex
+	allClusters []*Cluster
 )
 
 func runBase() string {
@@ -96,6 +98,12 @@ func CleanupAll() {
 		s.killNoLock()
 	}
 	allSrv = nil
+	clusterMu.Lock()
+	for _, c := range allClusters {
+		c.Destroy()
+	}
+	allClusters = nil
+	clusterMu.Unlock()
 	if baseDir != "" && os.Getenv("VERIF_KEEPDIR") == "" {
 		_ = os.RemoveAll(baseDir)
 	}
